@@ -259,6 +259,36 @@ def build_polygons():
     return "\n".join(out)
 
 
+def build_unicode():
+    """CPython's own str.upper / str.isspace, tabulated over every code point (interpreter facts, not repo facts):
+    the non-ASCII white-space characters, and the non-ASCII characters whose upper-casing consists only of
+    amino-acid letters / white space (every other non-ASCII character is rejected whatever its upper-casing is)."""
+    AA = set(AAS)
+    sp = [c for c in range(128, 0x110000) if chr(c).isspace()]
+    up = []
+    for c in range(128, 0x110000):
+        if 0xD800 <= c <= 0xDFFF:
+            continue
+        ch = chr(c)
+        u = ch.upper()
+        if u != ch and all((x in AA) or x.isspace() for x in u):
+            up.append((c, [ord(x) for x in u]))
+    asc_sp = [c for c in range(128) if chr(c).isspace()]
+    asc_up = [(c, [ord(x) for x in chr(c).upper()]) for c in range(128) if chr(c).upper() != chr(c)]
+    out = ["-- AUTO-GENERATED on every run by tools/extract.py from the running CPython interpreter. DO NOT EDIT.",
+           "namespace Cider.Gen",
+           "/-- non-ASCII code points with str.isspace() -/",
+           "def unicodeSpaces : List Nat := [%s]" % ", ".join(map(str, sp)),
+           "/-- ASCII code points with str.isspace() -/",
+           "def asciiSpaces : List Nat := [%s]" % ", ".join(map(str, asc_sp)),
+           "/-- non-ASCII code points whose str.upper() consists only of amino-acid letters / white space -/",
+           "def unicodeUpper : List (Nat × List Nat) := [%s]" % ", ".join("(%d, [%s])" % (c, ", ".join(map(str, u))) for c, u in up),
+           "/-- ASCII code points changed by str.upper() -/",
+           "def asciiUpperTab : List (Nat × List Nat) := [%s]" % ", ".join("(%d, [%s])" % (c, ", ".join(map(str, u))) for c, u in asc_up),
+           "end Cider.Gen", ""]
+    return "\n".join(out)
+
+
 def write_if_changed(path, content):
     try:
         old = open(path).read()
@@ -276,7 +306,7 @@ def write_if_changed(path, content):
 def main():
     os.makedirs(OUT, exist_ok=True)
     status = {"ok": True, "changed": [], "errors": {}}
-    for fname, builder in (("Tables.lean", build_tables), ("Polygons.lean", build_polygons)):
+    for fname, builder in (("Tables.lean", build_tables), ("Polygons.lean", build_polygons), ("Unicode.lean", build_unicode)):
         try:
             content = builder()
             if write_if_changed(os.path.join(OUT, fname), content):
